@@ -700,9 +700,14 @@ def _array_equal(a, b, **kw):
 
 
 @implements(np.nan_to_num)
-def _nan_to_num(a, nan=0.0, **kw):
+def _nan_to_num(a, copy=True, nan=0.0, **kw):
     f = np.frompyfunc(lambda x: ite(lift(x).isnan(), nan, x), 1, 1)
-    return SymArray(f(np.asarray(_obj(a), dtype=object)))
+    out = f(np.asarray(_obj(a), dtype=object))
+    if not copy and isinstance(a, np.ndarray) and a.dtype == object:
+        # copy=False writes into the argument's buffer (also through views)
+        np.ndarray.__setitem__(a.view(np.ndarray), Ellipsis, out)
+        return a
+    return SymArray(out)
 
 
 @implements(np.count_nonzero)
